@@ -95,6 +95,12 @@ func parmapWorld(r *R) {
 		if isStream {
 			if r.Choose(12, "ffail") == 11 {
 				p.fail = NewErr(fmt.Sprintf("F%d", i))
+				switch r.Choose(6, "ffail-flavour") { // an error of f's own that merely looks like a context error
+				case 4:
+					p.fail = context.Canceled
+				case 5:
+					p.fail = fmt.Errorf("f(%d) gave up: %w", i, context.DeadlineExceeded)
+				}
 				if firstFail < 0 {
 					firstFail = i
 				}
